@@ -18,22 +18,18 @@ import (
 // Each builder is a five-line function; its three facts are read by affine evaluation.
 
 type rangeBuilder struct {
-	where     string
-	pos       token.Pos
-	size      eng.Aff // over symbols MIN, MAX
-	emptyLE   int64   // empty iff size <= emptyLE
-	hasEmpty  bool
-	elem      eng.Aff // over MIN, I
-	hasElem   bool
-	lenIsSize bool
-	problem   string
+	where    string
+	pos      token.Pos
+	pos1     *eng.BuildSummary // region size >= 1
+	nonpos   *eng.BuildSummary // region size <= 0
+	problems []string
 }
 
-// readRangeBuilder: fd builds an []int; minE / maxE are the expressions of the bounds.
-func readRangeBuilder(info *types.Info, body ast.Node, where string, isMin, isMax func(ast.Expr) bool) rangeBuilder {
+// readRangeBuilder summarises the builder on both sides of size = max - min + 1 (eng.SliceBuild).
+func readRangeBuilder(info *types.Info, body *ast.BlockStmt, where string, isMin, isMax func(ast.Expr) bool, sink func(ast.Stmt) (ast.Expr, bool)) rangeBuilder {
 	rb := rangeBuilder{where: where, pos: body.Pos()}
-	env := &eng.AffEnv{Info: info, Vars: map[types.Object]eng.Aff{}}
-	env.Sym = func(e ast.Expr) (string, bool) {
+	want := eng.AffConst(1).Add(eng.AffSym("MAX"), 1).Add(eng.AffSym("MIN"), -1)
+	sym := func(e ast.Expr) (string, bool) {
 		if isMin(e) {
 			return "MIN", true
 		}
@@ -42,86 +38,15 @@ func readRangeBuilder(info *types.Info, body ast.Node, where string, isMin, isMa
 		}
 		return "", false
 	}
-	var sizeObj types.Object
-	var sliceObj types.Object
-	ast.Inspect(body, func(n ast.Node) bool {
-		switch x := n.(type) {
-		case *ast.AssignStmt:
-			if len(x.Lhs) == 1 && len(x.Rhs) == 1 && x.Tok == token.DEFINE {
-				id, ok := x.Lhs[0].(*ast.Ident)
-				if !ok {
-					return true
-				}
-				// size := max - min + 1
-				if a, ok := env.Eval(x.Rhs[0]); ok && len(a.T) == 2 && a.T["MIN"] != 0 && a.T["MAX"] != 0 && sizeObj == nil {
-					sizeObj = objOf(info, id)
-					rb.size = a
-					env.Vars[sizeObj] = eng.AffSym("SIZE")
-				}
-				// s := make([]int, size)
-				if c, ok := eng.Unparen(x.Rhs[0]).(*ast.CallExpr); ok && isBuiltinCall(info, c, "make") && len(c.Args) == 2 {
-					if sid, ok := eng.Unparen(c.Args[1]).(*ast.Ident); ok && sizeObj != nil && objOf(info, sid) == sizeObj {
-						rb.lenIsSize = true
-						sliceObj = objOf(info, id)
-					}
-				}
-			}
-			// s[i] = min + i
-			if len(x.Lhs) == 1 && len(x.Rhs) == 1 && x.Tok == token.ASSIGN {
-				if ix, ok := x.Lhs[0].(*ast.IndexExpr); ok {
-					if sid, ok := eng.Unparen(ix.X).(*ast.Ident); ok && sliceObj != nil && objOf(info, sid) == sliceObj {
-						if iid, ok := eng.Unparen(ix.Index).(*ast.Ident); ok {
-							e2 := &eng.AffEnv{Info: info, Vars: map[types.Object]eng.Aff{objOf(info, iid): eng.AffSym("I")}, Sym: env.Sym}
-							if a, ok := e2.Eval(x.Rhs[0]); ok {
-								rb.elem, rb.hasElem = a, true
-							}
-						}
-					}
-				}
-			}
-		case *ast.IfStmt:
-			// if size < 1 / size <= 0 { …empty… }
-			b, ok := eng.Unparen(x.Cond).(*ast.BinaryExpr)
-			if !ok || sizeObj == nil {
-				return true
-			}
-			id, ok := eng.Unparen(b.X).(*ast.Ident)
-			if !ok || objOf(info, id) != sizeObj {
-				return true
-			}
-			k, ok := runeConst(info, b.Y)
-			if !ok {
-				return true
-			}
-			// is the then-branch the empty result? (a make/literal of length 0)
-			empty := false
-			ast.Inspect(x.Body, func(m ast.Node) bool {
-				switch y := m.(type) {
-				case *ast.CompositeLit:
-					if len(y.Elts) == 0 {
-						empty = true
-					}
-				case *ast.CallExpr:
-					if isBuiltinCall(info, y, "make") && len(y.Args) == 2 && eng.ExprStr(y.Args[1]) == "0" {
-						empty = true
-					}
-				}
-				return true
-			})
-			if !empty {
-				return true
-			}
-			switch b.Op {
-			case token.LSS:
-				rb.emptyLE, rb.hasEmpty = k-1, true
-			case token.LEQ:
-				rb.emptyLE, rb.hasEmpty = k, true
-			}
+	for _, region := range []int{1, -1} {
+		sb := &eng.SliceBuild{Info: info, Sym: sym, Sink: sink, Pivot: want, Region: region}
+		sum := sb.Run(body.List, nil)
+		rb.problems = append(rb.problems, sum.Problems...)
+		if region > 0 {
+			rb.pos1 = sum
+		} else {
+			rb.nonpos = sum
 		}
-		return true
-	})
-	if sizeObj == nil {
-		rb.problem = "no `size := max - min + 1`-like definition"
 	}
 	return rb
 }
@@ -154,7 +79,12 @@ func rangeBuilderRule(p *core.Program, r *core.Report) {
 				return ok && objOf(vinfo, id) == o
 			}
 		}
-		rb := readRangeBuilder(vinfo, fd.Body, core.FuncName("vm", fd), is(params[0]), is(params[1]))
+		rb := readRangeBuilder(vinfo, fd.Body, core.FuncName("vm", fd), is(params[0]), is(params[1]), func(st ast.Stmt) (ast.Expr, bool) {
+			if rs, ok := st.(*ast.ReturnStmt); ok && len(rs.Results) == 1 {
+				return rs.Results[0], true
+			}
+			return nil, false
+		})
 		rt = &rb
 	}
 	// compile-time builder: the optimizer pass under `Operator == ".."` with IntegerNode bounds
@@ -182,8 +112,34 @@ func rangeBuilderRule(p *core.Program, r *core.Report) {
 		if !makesInts {
 			continue
 		}
-		rb := readRangeBuilder(oinfo, fd.Body, core.FuncName("optimizer", fd), isBound("Left"), isBound("Right"))
-		if rb.problem == "" {
+		// the slice reaches the tree as the Value of a ConstantNode literal in a statement
+		sink := func(st ast.Stmt) (ast.Expr, bool) {
+			es, ok := st.(*ast.ExprStmt)
+			if !ok {
+				return nil, false
+			}
+			var val ast.Expr
+			ast.Inspect(es, func(n ast.Node) bool {
+				if cl, ok := n.(*ast.CompositeLit); ok && val == nil {
+					if nt, ok := oinfo.TypeOf(cl).(*types.Named); ok && nt.Obj().Name() == "ConstantNode" {
+						for _, el := range cl.Elts {
+							if kv, ok := el.(*ast.KeyValueExpr); ok && eng.ExprStr(kv.Key) == "Value" {
+								val = kv.Value
+							}
+						}
+						if val == nil && len(cl.Elts) > 0 {
+							if _, isKV := cl.Elts[len(cl.Elts)-1].(*ast.KeyValueExpr); !isKV {
+								val = cl.Elts[len(cl.Elts)-1]
+							}
+						}
+					}
+				}
+				return true
+			})
+			return val, val != nil
+		}
+		rb := readRangeBuilder(oinfo, fd.Body, core.FuncName("optimizer", fd), isBound("Left"), isBound("Right"), sink)
+		if len(rb.pos1.Results) > 0 {
 			ct = &rb
 		}
 	}
@@ -191,18 +147,48 @@ func rangeBuilderRule(p *core.Program, r *core.Report) {
 		r.Unk("R2.7", "range builders", "", fmt.Sprintf("run-time builder found: %v, compile-time builder found: %v", rt != nil, ct != nil))
 		return
 	}
+	want := eng.AffConst(1).Add(eng.AffSym("MAX"), 1).Add(eng.AffSym("MIN"), -1)
+	elem := eng.AffSym("MIN").Add(eng.AffSym("I"), 1)
 	for _, b := range []*rangeBuilder{rt, ct} {
-		if b.problem != "" {
-			r.Unk("R2.7", b.where+"/range builder shape", p.Pos(b.pos), b.problem)
+		if len(b.problems) > 0 {
+			r.Unk("R2.7", b.where+"/range builder shape", p.Pos(b.pos), strings.Join(b.problems, "; "))
 			return
 		}
-	}
-	want := eng.AffConst(1).Add(eng.AffSym("MAX"), 1).Add(eng.AffSym("MIN"), -1)
-	for _, b := range []*rangeBuilder{rt, ct} {
-		r.Check(b.size.Equal(want), "R2.7", b.where+"/size is max - min + 1", p.Pos(b.pos), b.size.String(), "the range's size is computed as `"+b.size.String()+"`, not max - min + 1: `a..b` has one element too many or too few")
-		r.Check(b.lenIsSize, "R2.7", b.where+"/slice has size elements", p.Pos(b.pos), "make([]int, size)", "the slice is not made with the computed size")
-		r.Check(b.hasElem && b.elem.Equal(eng.AffSym("MIN").Add(eng.AffSym("I"), 1)), "R2.7", b.where+"/element i is min + i", p.Pos(b.pos), "min + i", "element i of the range is `"+b.elem.String()+"`, not min + i")
-		r.Check(b.hasEmpty && b.emptyLE == 0, "R2.7", b.where+"/empty exactly when size <= 0", p.Pos(b.pos), "empty iff size <= 0", fmt.Sprintf("the builder returns the empty range iff size <= %d (found: %v): the boundary case max = min-1 or max = min differs from the other builder", b.emptyLE, b.hasEmpty))
+		// region size >= 1: every delivered slice has size elements, all stored, element i = min + i
+		okLen, okCov, okElem := len(b.pos1.Results) > 0, true, true
+		gotLen, gotElem, note := "", "", ""
+		for _, res := range b.pos1.Results {
+			if !res.LenOK || !res.Len.Equal(want) {
+				okLen = false
+				gotLen = res.Len.String()
+				if !res.LenOK {
+					gotLen = "a length this analysis cannot express"
+				}
+			}
+			if !res.Covered {
+				okCov = false
+				note = res.Note
+			}
+			if !res.HasElem || !res.Elem.Equal(elem) {
+				okElem = false
+				gotElem = res.Elem.String()
+				if !res.HasElem {
+					gotElem = "not stored by an unconditional statement of the loop" + res.Note
+				}
+			}
+		}
+		r.Check(okLen, "R2.7", b.where+"/size is max - min + 1", p.Pos(b.pos), fmt.Sprintf("%d delivering path(s) with max >= min, each of length max - min + 1", len(b.pos1.Results)), "for max >= min the builder delivers a slice of length `"+gotLen+"`, not max - min + 1: `a..b` has one element too many or too few")
+		r.Check(okCov, "R2.7", b.where+"/slice has size elements", p.Pos(b.pos), "every index below the length is stored by the loop", "not every index below the slice's length is stored unconditionally by the loop ("+note+"): trailing or skipped elements stay 0")
+		r.Check(okElem, "R2.7", b.where+"/element i is min + i", p.Pos(b.pos), "min + i", "element i of the range is `"+gotElem+"`, not min + i")
+		// region size <= 0: whatever is delivered is empty
+		okEmpty, gotE := true, ""
+		for _, res := range b.nonpos.Results {
+			if !res.LenOK || !res.Len.IsConst() || res.Len.C != 0 {
+				okEmpty = false
+				gotE = res.Len.String()
+			}
+		}
+		r.Check(okEmpty, "R2.7", b.where+"/empty exactly when size <= 0", p.Pos(b.pos), fmt.Sprintf("for max < min: %d path(s) deliver an empty slice, %d leave the node to the other builder", len(b.nonpos.Results), b.nonpos.Skips), "for max < min the builder delivers a slice of length `"+gotE+"` (a negative make length panics; a positive one is not the empty range): the boundary case max = min-1 differs from the other builder")
 	}
 	r.Floor("R2.7", 8)
 }
